@@ -217,6 +217,37 @@ func checkC17(c *vlib.Ctx) (string, string) {
 			}
 		}
 	}
+	// (a'') every name of the C04/C05 tables alone in its list (a list may become empty after silent filtering)
+	for _, a := range c04MA {
+		l := valid
+		l.Methods = []string{a.Value}
+		tryCfg(l)
+	}
+	for _, a := range c04QA {
+		l := valid
+		l.RequestHeaders = []string{a.Value}
+		tryCfg(l)
+		l.RequestHeaders = []string{a.Value, a.Value}
+		tryCfg(l)
+	}
+	for _, a := range c04RA {
+		for _, cred := range []bool{false, true} {
+			l := valid
+			l.Credentialed = cred
+			l.ResponseHeaders = []string{a.Value}
+			tryCfg(l)
+			l.ResponseHeaders = []string{a.Value, "content-type", a.Value}
+			tryCfg(l)
+		}
+	}
+	for _, a := range c04OA {
+		for sw := 0; sw < 8; sw++ {
+			l := valid
+			l.Credentialed, l.PNA, l.TolInsecure, l.TolPSL = sw&1 != 0, sw&2 != 0, sw&4 != 0, sw&4 != 0
+			l.Origins = []string{a.Value}
+			tryCfg(l)
+		}
+	}
 	// (b) pairs and triples over a pool of edge-case patterns (tree insertion with unusual hosts)
 	pool := []string{"*", "a://a", "a://a.", "a://*.a", "a://*.a.", "a://a:1", "a://a:*", "a://*.a:*", "a://b.a", "a://ba", "a://1.2.3.4", "a://[::1]", "a://[::]", "a://[1::]:*", "b://a", "a://" + c01Host253, "a://" + c01Host253 + ".", "a://*." + c01Base251, c01Scheme64 + "://a:65535", "a://xn--a", "a://a-", "a://0", "a://0.a", "a://a.0", "a://_", "", "a://", "null"}
 	pw := vlib.NewWords(pool, 3)
